@@ -495,7 +495,8 @@ class CallMixin:
             dc, mnode = self.classes.find_method(cls, name)
             if c is not None and (dc is None or c.qualname == dc + '.' + name or
                                   not self.should_inline(dc + '.' + name)):
-                return self.apply_contract(st, c, args, kw, node, self_sv=recv)
+                return self.apply_contract(st, c, args, kw, node, self_sv=recv,
+                                           static=bool(static_cls) and dc is not None and c.qualname == dc + '.' + name)
             if mnode is not None and self.should_inline(dc + '.' + name):
                 return self.inline_call(st, dc + '.' + name, mnode, [recv] + list(args), kw, node)
             if c is not None:
